@@ -38,6 +38,8 @@ const (
 	fKeyEnumImport = "F53-proto-enum-list-key-import-missing"
 	fDecimalImport = "F54-proto-union-decimal64-spurious-enums-import"
 	fRootPkgUnique = "F55-proto-compress-hierarchy-second-module-root-package"
+	fDupKeyMsg     = "F56-proto-hierarchy-duplicate-key-message"
+	fUnionEnumRef  = "F57-proto-hierarchy-leaflist-union-enum-scope"
 )
 
 // c28ExcludedClasses are the yanggen collision classes that are not drawn in C28 because a known
@@ -167,7 +169,11 @@ func excused(rec *ev.Rec, f protoFlags, po *protoOut, p problem) bool {
 	// F50: -package_hierarchy, a directory whose package component equals its message name
 	case p.Class == "link:duplicate-symbol" && strings.Contains(p.Msg, "(message) is already defined as package in file"):
 		name := lastComponent(qs(0))
-		return rec.Excuse(fPkgMsgClash, f.Hierarchy && strings.HasSuffix(qs(1), "/"+name+"/"+name+".proto"))
+		return rec.Excuse(fPkgMsgClash, f.Hierarchy && strings.Contains(qs(1), "/"+name+"/"))
+
+	// F56: -package_hierarchy, the key messages of two same-named lists land in one package
+	case p.Class == "link:duplicate-symbol" && strings.Contains(p.Msg, "(message) is already defined as message"):
+		return rec.Excuse(fDupKeyMsg, f.Hierarchy && strings.HasSuffix(qs(0), "Key") && strings.HasPrefix(strings.TrimSpace(line), "message "+lastComponent(qs(0))+" {"))
 
 	// F51: nested message/enum name equals a sibling field name
 	case p.Class == "link:duplicate-symbol" && (strings.Contains(p.Msg, "(message) is already defined as field") || strings.Contains(p.Msg, "(enum) is already defined as field") ||
@@ -181,6 +187,11 @@ func excused(rec *ev.Rec, f protoFlags, po *protoOut, p problem) bool {
 		// F53: enum-typed list key in a nested key message, enums import lost
 		case strings.HasPrefix(typ, enumRef) && strings.HasSuffix(scope, "Key"):
 			return rec.Excuse(fKeyEnumImport, !f.Hierarchy && !strings.Contains(raw, "/"+f.EnumPackage+"/"+f.EnumPackage+".proto\";"))
+		// F57: -package_hierarchy, the message generated for a leaf-list of unions is a sibling
+		// of the message that holds the union's inline enum
+		case f.Hierarchy && m != nil && !strings.Contains(typ, ".") && strings.HasSuffix(typ, "Enum") && strings.HasSuffix(lastComponent(scope), "Union") &&
+			m[1] == typ && strings.HasSuffix(m[2], "_"+strings.ToLower(typ)):
+			return rec.Excuse(fUnionEnumRef, true)
 		// F55: -compress_paths -package_hierarchy, top-level nodes of a second module are put
 		// into package "<base>._" but referenced as if they were in "<base>"
 		case f.Compress && f.Hierarchy && !strings.Contains(typ, ".") && underscorePkgDefines(po, f, typ):
